@@ -17,6 +17,11 @@ pub fn instances(tier: &str) -> Vec<String> {
     for k in 0..=(if tier == "thorough" { 2 } else { 1 }) { v.push(format!("sys_any:n=2,iters={}", k)); v.push(format!("sysjac_any:n=2,iters={}", k)); }
     for n in 1..=2 { v.push(format!("sys_affine:n={},iters=2", n)); v.push(format!("sysjac_affine:n={},iters=2", n)); }
     v.push("csys_affine:n=1,iters=2".into());
+    // a user function that returns NaN at its j-th call (and arbitrary values otherwise): success must never carry NaN
+    for k in 1..=2usize { for j in 0..3 * k { v.push(format!("scalar_nan:iters={},at={}", k, j)); } }
+    for j in 0..3usize { v.push(format!("cscalar_nan:iters=1,at={}", j)); }
+    for j in 0..2usize { v.push(format!("sys_nan:n=1,iters=2,at={}", j)); }
+    for j in 0..2usize { v.push(format!("sysjac_nan:n=1,iters=2,at={}", j)); }
     v
 }
 
@@ -80,6 +85,57 @@ pub fn body(inst: &str) {
                 Err(st) => must_not_stop("Newton::solve", &st),
             }
             control("scalar control", eq(tol, tol + Sym::lit(1.0)));
+        }
+        "scalar_nan" => {
+            let at = geti(&p, "at");
+            let x0 = Sym::var("x0");
+            let calls: RefCell<usize> = RefCell::new(0);
+            // the function returns NaN at its `at`-th call and, like every arithmetic function, whenever its argument is NaN
+            let f = |x: Sym| -> Sym { let k = *calls.borrow(); *calls.borrow_mut() += 1; if k == at || x.is_nan() { Sym::NAN } else { Sym::var(&format!("f_{}", k)) } };
+            let mut nw = Newton::<Sym>::new(x0);
+            nw.tolerance(tol); nw.delta(delta); nw.iterations(iters);
+            match catch(|| nw.solve(&f)) {
+                Ok(Ok(v)) => { prove("success is never reported with a NaN point (function returned NaN)", if v.is_nan() { B::False } else { B::True }); }
+                Ok(Err(_)) => { check_that(*calls.borrow() <= 3 * iters, || "evaluation bound".into()); }
+                Err(Stop::DivZero { .. }) => { check_that(true, || String::new()); }
+                Err(st) => must_not_stop("Newton::solve with a NaN-returning function", &st),
+            }
+        }
+        "cscalar_nan" => {
+            let at = geti(&p, "at");
+            let x0 = Cmplx::new(Sym::var("x0r"), Sym::var("x0i"));
+            let calls: RefCell<usize> = RefCell::new(0);
+            let f = |x: Cmplx| -> Cmplx { let k = *calls.borrow(); *calls.borrow_mut() += 1; if k == at || x.real.is_nan() || x.imag.is_nan() { Cmplx::new(Sym::NAN, Sym::NAN) } else { Cmplx::new(Sym::var(&format!("fr_{}", k)), Sym::var(&format!("fi_{}", k))) } };
+            let mut nw = Newton::<Cmplx>::new(x0);
+            nw.tolerance(tol); nw.delta(delta); nw.iterations(iters);
+            match catch(|| nw.solve(&f)) {
+                Ok(Ok(v)) => { prove("complex: success is never reported with a NaN point", if v.real.is_nan() || v.imag.is_nan() { B::False } else { B::True }); }
+                Ok(Err(_)) => { check_that(true, || String::new()); }
+                Err(Stop::DivZero { .. }) | Err(Stop::Domain { .. }) => { check_that(true, || String::new()); }
+                Err(st) => must_not_stop("Newton<Cmplx>::solve with a NaN-returning function", &st),
+            }
+        }
+        "sys_nan" | "sysjac_nan" => {
+            let at = geti(&p, "at");
+            let x0 = var_vec("x0", n);
+            let calls: RefCell<usize> = RefCell::new(0);
+            // NaN is injected into a RESIDUAL evaluation (the call that the stopping test looks at); NaN arguments give NaN results
+            let per = if kind == "sysjac_nan" { 1 } else { n + 2 };
+            let f = |x: Vec64| -> Vec64 { let k = *calls.borrow(); *calls.borrow_mut() += 1; let poisoned = (0..x.size()).any(|i| x[i].is_nan()); Vector::create((0..n).map(|i| if poisoned || (k == at * per && i == 0) { Sym::NAN } else { Sym::var(&format!("F{}_{}", k, i)) }).collect()) };
+            let jc: RefCell<usize> = RefCell::new(0);
+            let jac = |_x: Vec64| -> Mat64 { let k = *jc.borrow(); *jc.borrow_mut() += 1; let mut j = Mat64::new(n, n, z()); for a in 0..n { for b in 0..n { j[(a, b)] = Sym::var(&format!("J{}_{}_{}", k, a, b)); } } j };
+            let mut nw = Newton::<Vec64>::new(Vector::create(x0.clone()));
+            nw.tolerance(tol); nw.delta(delta); nw.iterations(iters);
+            match catch(|| if kind == "sysjac_nan" { nw.solve_jacobian(&f, &jac) } else { nw.solve(&f) }) {
+                Ok(Ok(_v)) => {
+                    // a NaN residual never satisfies the stopping test, and every later residual is NaN as well
+                    let done = (*calls.borrow() + per - 1) / per;
+                    prove("system: success is not reported at or after an iteration whose residual was NaN", if done > at { B::False } else { B::True });
+                }
+                Ok(Err(_)) => { check_that(true, || String::new()); }
+                Err(Stop::DivZero { .. }) => { check_that(true, || String::new()); }
+                Err(st) => must_not_stop("Newton<Vec64> with a NaN-returning function", &st),
+            }
         }
         "cscalar_any" | "cscalar_affine" => {
             let x0 = Cmplx::new(Sym::var("x0r"), Sym::var("x0i"));
